@@ -17,7 +17,7 @@ BREAKERS = [
      "functions": [S + "processLinearMoves"]},
     {"module": "ExcludeRegionState", "old": "            if (not returnCommands and not self.excluding):", "new": "            if (False):",
      "desc": "dropped retraction not compensated by G92 E (original F5)", "functions": [S + "processLinearMoves"]},
-    {"module": "ExcludeRegionState", "old": "            \"G92 E{e}\".format(e=self.position.E_AXIS.nativeToLogical())\n        )\n\n        # Compare the physical",
-     "new": "            \"G92 E{e}\".format(e=self.lastPosition.E_AXIS.nativeToLogical())\n        )\n\n        # Compare the physical",
+    {"module": "ExcludeRegionState", "old": "            \"G92 E{e}\".format(e=formatNumber(self.position.E_AXIS.nativeToLogical()))\n        )\n\n        # Compare the physical",
+     "new": "            \"G92 E{e}\".format(e=formatNumber(self.lastPosition.E_AXIS.nativeToLogical()))\n        )\n\n        # Compare the physical",
      "desc": "exit re-sync uses the E value from before the episode", "functions": [S + "exitExcludedRegion", S + "processLinearMoves"]},
 ]
